@@ -5,11 +5,12 @@
 EXTENDS FindWalk, TraceLib
 
 CfgOf(in) == [mode |-> in.cfg.mode, min |-> in.cfg.min, max |-> in.cfg.max,
-              depth |-> in.cfg.depth, sorted |-> in.cfg.sorted, prune |-> RangeOf(in.cfg.prune)]
+              depth |-> in.cfg.depth, sorted |-> in.cfg.sorted, prune |-> RangeOf(in.cfg.prune),
+              xdev |-> "xdev" \in DOMAIN in.cfg /\ in.cfg.xdev]
 
 Ref(in) == WalkRoots(in.tree, CfgOf(in), in.roots)
 
-InDomain(in, obs) == TRUE
+InDomain(in, obs) == "nomount" \notin DOMAIN obs     \* (the sandbox did not let the harness mount a file system)
 
 Conforms(in, obs) ==
   LET cfg == CfgOf(in)
